@@ -192,3 +192,49 @@ pub fn generate(tier: &str, seed: u64) -> Vec<String> {
     }
     out
 }
+
+/// `c12 zinflate kind=gzip|zlib data=<hex> want=<hex>`: a container written by the specification-level DEFLATE WRITER
+/// (`Zarrs.DeflateSpec`, streams flate2 itself would never produce), decoded by zarrs' OWN codecs: `GzipCodec::decode` /
+/// `ZlibCodec::decode`, and once more through the codec's partial decoder over a store value (whole value and a byte range).
+/// Outcome `val <hex>` when all paths agree, `none` when all fail, `mixed …` otherwise.
+pub fn exec_zinflate(m: &BTreeMap<String, String>) -> String {
+    use std::borrow::Cow;
+    use zarrs::array::codec::{BytesToBytesCodecTraits, GzipCodec, StoragePartialDecoder, ZlibCodec};
+    use zarrs::array::BytesRepresentation;
+    use zarrs::byte_range::ByteRange;
+    use zarrs::storage::{store::MemoryStore, ReadableStorageTraits, WritableStorageTraits};
+    let data = unhex(&m["data"]);
+    let gzip = m["kind"] == "gzip";
+    guarded(move || {
+        let codec: Arc<dyn BytesToBytesCodecTraits> = if gzip { Arc::new(GzipCodec::new(5).unwrap()) } else { Arc::new(ZlibCodec::new(1u32.try_into().unwrap())) };
+        let opts = CodecOptions::default();
+        let repr = BytesRepresentation::UnboundedSize;
+        let whole = codec.decode(Cow::Borrowed(&data[..]), &repr, &opts).map(|b| b.into_owned()).ok();
+        let store = Arc::new(MemoryStore::new());
+        let key = StoreKey::new("v").unwrap();
+        store.set(&key, data.clone().into()).unwrap();
+        let rs: Arc<dyn ReadableStorageTraits> = store;
+        let input = Arc::new(StoragePartialDecoder::new(rs, key));
+        let part = match codec.clone().partial_decoder(input, &repr, &opts) {
+            Ok(pd) => match pd.partial_decode(&[ByteRange::FromStart(0, None)], &opts) { Ok(Some(v)) => Some(v[0].to_vec()), _ => None },
+            Err(_) => None,
+        };
+        match (whole, part) {
+            (Some(a), Some(b)) if a == b => {
+                // a byte range of the decoded value through the partial decoder
+                if a.len() >= 2 {
+                    let rs2 = Arc::new(MemoryStore::new());
+                    rs2.set(&StoreKey::new("v").unwrap(), data.clone().into()).unwrap();
+                    let rs2: Arc<dyn ReadableStorageTraits> = rs2;
+                    let input = Arc::new(StoragePartialDecoder::new(rs2, StoreKey::new("v").unwrap()));
+                    let (o, l) = (a.len() as u64 / 3, a.len() as u64 / 2);
+                    let got = codec.clone().partial_decoder(input, &repr, &opts).ok().and_then(|pd| pd.partial_decode(&[ByteRange::FromStart(o, Some(l))], &opts).ok().flatten().map(|v| v[0].to_vec()));
+                    if got.as_deref() != Some(&a[o as usize..(o + l) as usize]) { return format!("mixed range {}+{} of {}", o, l, hex(&a)); }
+                }
+                format!("val {}", hex(&a))
+            }
+            (None, None) => "none".into(),
+            (a, b) => format!("mixed whole={} partial={}", a.map(|x| hex(&x)).unwrap_or("none".into()), b.map(|x| hex(&x)).unwrap_or("none".into())),
+        }
+    })
+}
